@@ -230,7 +230,11 @@ def rule_null_space(repo: Repo, rep: Report) -> int:
             rep.expect(t in st, "VERIFIED-RETURN", h, f"elimination step `{t}`", "row operations over GF(2) applied identically to the matrix and to the transformation", "a step of the GF(2) elimination is missing or changed")
             n += 1
         conds = [unparse(s.test) for s in stmts_of(h.body) if isinstance(s, ast.If)]
-        rep.expect("other != row and reduced[other, col] != 0" in conds, "VERIFIED-RETURN", h, "eliminate every other row with a 1 in the pivot column", "reduced (not just echelon) form", "the pivot column is not cleared in all other rows")
+        # the clearing loop must visit EVERY row of the matrix (reduced form), not only the rows below the pivot
+        clear_loops = [l_ for l_ in ast.walk(h.node) if isinstance(l_, ast.For) and any(unparse(x_) == "reduced[other] = (reduced[other] + reduced[row]) % 2" for x_ in ast.walk(l_)) and not any(isinstance(y_, ast.For) and y_ is not l_ and any(unparse(x_) == "reduced[other] = (reduced[other] + reduced[row]) % 2" for x_ in ast.walk(y_)) for y_ in ast.walk(l_))]
+        all_rows = len(clear_loops) == 1 and unparse(clear_loops[0].iter) in ("range(k)", "range(reduced.shape[0])", "range(reduced.size(0))", "range(matrix.shape[0])") and "other != row and reduced[other, col] != 0" in conds
+        partial = len(clear_loops) == 1 and not all_rows and (any(isinstance(x_, ast.Name) and x_.id == "candidates" for x_ in ast.walk(clear_loops[0].iter)) or unparse(clear_loops[0].iter).startswith(("range(row + 1", "range(row,")))
+        rep.shape(all_rows, partial, "VERIFIED-RETURN", h, f"eliminate every other row with a 1 in the pivot column: for {unparse(clear_loops[0].target) if clear_loops else '?'} in {unparse(clear_loops[0].iter) if clear_loops else '?'}", "reduced (not just echelon) form", "only rows at or below the pivot are cleared: the result is a row ECHELON form, but the null-space / right-inverse constructions read it as the REDUCED form - G.H^T != 0 for generators whose elimination needs back-substitution")
         n += 1
         # null-space basis construction from the reduced form
         body = set(statement_texts(fi))
